@@ -296,8 +296,82 @@ def program(ctx: RunCtx, faulty: bool) -> None:
         rt.set_world(None)
 
 
+def storage_service(ctx: RunCtx) -> None:
+    """Stratum 4: the repository's own conformance storage service (vgi_rpc.conformance.fake_storage) with 2-3 uploaders
+    whose alloc / PUT / GET steps interleave as the tape says.  What an uploader stored under the URLs it was handed is
+    what it - and the server resolving its pointer - reads back: nobody else's bytes, and not "missing"."""
+    import io as _io
+    import json as _json
+    import types as _types
+
+    import vgi_rpc.conformance.fake_storage as fs
+
+    ch = ctx.ch
+    det = s2.DetRandom(ch.subrng("uuid"))
+    saved_uuid = getattr(fs, "uuid", None)  # the module's source of blob ids, when it has one
+    if saved_uuid is not None:
+        fs.uuid = _types.SimpleNamespace(uuid4=det.uuid4)  # type: ignore[assignment]
+    try:
+        app = fs.make_app("http://storage.sim")
+
+        def call(method: str, path: str, body: bytes = b"", headers: dict[str, str] | None = None) -> tuple[int, dict[str, str], bytes]:
+            env = {"REQUEST_METHOD": method, "PATH_INFO": path, "QUERY_STRING": "", "SERVER_NAME": "storage.sim", "SERVER_PORT": "80",
+                   "wsgi.input": _io.BytesIO(body), "CONTENT_LENGTH": str(len(body)), "wsgi.url_scheme": "http"}
+            for k, v in (headers or {}).items():
+                env["HTTP_" + k.upper().replace("-", "_")] = v
+            got: dict[str, Any] = {}
+
+            def start_response(status: str, hdrs: list[tuple[str, str]], exc_info: Any = None) -> Any:
+                got["status"], got["headers"] = int(status.split()[0]), {k.lower(): v for k, v in hdrs}
+
+            out = b"".join(app(env, start_response))
+            return got["status"], got["headers"], out
+
+        n = 2 + ch.choose(2, "uploaders")
+        steps = {k: ["alloc", "put", "get"] + (["get"] if ch.choose(2, f"u{k}.twice") else []) for k in range(n)}
+        urls: dict[int, dict[str, str]] = {}
+        payload = {k: (f"uploader-{k}:".encode() + bytes([65 + k]) * (10 + 7 * k)) for k in range(n)}
+        order: list[str] = []
+        while any(steps.values()):
+            live = [k for k in range(n) if steps[k]]
+            k = live[ch.choose(len(live), "next")]
+            st = steps[k].pop(0)
+            order.append(f"{st}{k}")
+            if st == "alloc":
+                code, _h, body = call("POST", "/alloc")
+                urls[k] = _json.loads(body)
+                ch.fault("storage.alloc")
+            elif st == "put":
+                code, _h, _b = call("PUT", urls[k]["upload_url"].removeprefix("http://storage.sim"), payload[k])
+                if code not in (200, 201, 204):
+                    ctx.violation("C30", "storage-service", f"put-status-{code}", f"PUT of uploader {k} answered {code}; order {order}")
+                    return
+            else:
+                code, _h, body = call("GET", urls[k]["download_url"].removeprefix("http://storage.sim"))
+                if code != 200 or body != payload[k]:
+                    whose = next((j for j in range(n) if body == payload[j]), None)
+                    ctx.violation("C30", "storage-service", "wrong-object" if whose is not None else f"get-{code}",
+                                  f"uploader {k} stored {payload[k][:24]!r} under the URLs it was handed and read back "
+                                  f"{'the object of uploader ' + str(whose) if whose is not None else repr(body[:40])} (HTTP {code}); "
+                                  f"interleaving {order}; urls {[u.get('download_url', '')[-12:] for u in urls.values()]}")
+                    return
+        if len({u["download_url"] for u in urls.values()}) != len(urls):
+            ctx.violation("C30", "storage-service", "url-collision", f"two allocations were handed the same URL: interleaving {order}")
+            return
+        ctx.case_key = ("storage-service", tuple(order))
+        ctx.nontrivial = True
+        ctx.sample = {"stratum": "storage-service", "uploaders": n, "interleaving": order}
+        ch.probe("stratum:storage-service")
+    finally:
+        if saved_uuid is not None:
+            fs.uuid = saved_uuid  # type: ignore[assignment]
+
+
 def run(ctx: RunCtx) -> None:
-    stratum = ctx.ch.choose(3, "stratum")
+    stratum = ctx.ch.weighted([2, 2, 2, 1], "stratum")
+    if stratum == 3:
+        storage_service(ctx)
+        return
     if stratum == 0:
         program(ctx, faulty=False)
     elif stratum == 1:
